@@ -257,8 +257,10 @@ let report kind what detail =
   end;
   flag := true
 
+let in_rpc = ref false
 let finish_seq () =
-  if !sid <> "" then begin
+  if !in_rpc then in_rpc := false
+  else if !sid <> "" then begin
     incr nseq;
     if !seq_disc then incr disciplined_seqs;
     if !seq_nontrivial then Hashtbl.replace nontrivial (String.concat "|" !cmds_txt) ()
@@ -274,6 +276,20 @@ let () =
       sid := id; sclass := cl; cmds_txt := []; cmds := []; mst := []; seq_bad := false; seq_pf := false; seq_nontrivial := false; seq_disc := true;
       prev_dump := "-/ -/ -/ -/"; prev_resp := ""; prev_cmd := "";
       bump ("class:" ^ cl)
+    | ["HS"; id] ->
+      finish_seq ();
+      sid := id; sclass := "rpc"; cmds_txt := []; seq_bad := false; seq_pf := false; in_rpc := true
+    | ["H"; ctxt; want; got; verdict] ->
+      let probe = (want = "region-error-probe") in
+      if not probe then cmds_txt := ctxt :: !cmds_txt;
+      incr nprops; bump "oracle:handler_glue";
+      if verdict <> "pass" then begin
+        incr npfail;
+        let keep = !cmds_txt in
+        if probe then cmds_txt := ctxt :: !cmds_txt;
+        report "PROPFAIL" "handler_glue" ("handler answered " ^ got ^ ", MVCCStore call (through the glue rules) " ^ want ^ " : " ^ verdict);
+        cmds_txt := keep
+      end
     | ["O"; ctxt; iresp; idump] ->
       incr nops;
       let c = (try parse_cmd ctxt with e -> (report "MISMATCH" "unparsable-command" ctxt; Get (N0, N0, []))) in
